@@ -352,7 +352,7 @@ def run_xy(case):
 
 @st.composite
 def cases18(draw, tier="quick"):
-    c = draw(xylab.cases(tier))
+    c = draw(xylab.cases(tier, bias=draw(st.sampled_from([None, None, "gappy-intraday"]))))
     if c["transformer"] == "z-score" and draw(st.sampled_from([False, False, True])):
         # the same scaler, but fitted by the caller beforehand on a shorter sample of its own choosing
         k = draw(st.integers(8, max(8, len(c["x_days"]))))
